@@ -2,7 +2,7 @@ import VelaVerif.Model.WeightLayout
 import VelaVerif.Spec.WeightLayout
 /-! Helper lemmas for C08 (model: `Model/WeightLayout.lean`, spec: `Spec/WeightLayout.lean`). -/
 namespace VelaVerif.WeightLayout
-open VelaVerif.WeightSpec (bytesAt decodeRecord decodeRecords Rec chanOf)
+open VelaVerif.WeightSpec (bytesAt decodeRecord decodeRecords Rec chanOf SReq ValidReq Expect expected slices slicesFrom activeCores)
 
 /-! ### the 80-bit record -/
 
@@ -560,5 +560,442 @@ theorem encodeSlices_dbs (c : Cfg) : ∀ (offs : List Nat) (idx : Nat) (st : St)
               have := hinv i
               simp only [dmaSum, List.map_nil, List.sum_nil] at *
               omega
+
+/-! ### the whole tensor -/
+
+theorem good_init (c : Cfg) : Good c { stream := [], ranges := [], index := 0 } :=
+  { aligned := rfl, rng := by simp, ordered := List.Pairwise.nil }
+
+structure TensorFacts (c : Cfg) (offsets : List Nat) (out : Out) : Prop where
+  good : Good c { stream := out.stream, ranges := out.rawRanges, index := 0 }
+  made : All₂ (MadeE c) (expectedM c 0 offsets) out.rawRanges
+  dbs : ∀ i, dmaSum (out.rawRanges.filter (fun r => r.slice = i)) ≤ getDbs out.dbs i
+  dict : out.ranges = orderedDict out.rawRanges
+  ncores : c.ncores ≠ 0
+  nOff : offsets.length > 1
+
+theorem encodeTensor_facts (c : Cfg) (offsets : List Nat) (out : Out) (h : encodeTensor c offsets = .ok out) :
+    TensorFacts c offsets out := by
+  unfold encodeTensor at h
+  split at h
+  · cases h
+  · rename_i hlen
+    split at h
+    · cases h
+    · rename_i hn
+      cases h1 : encodeSlices c 0 offsets { stream := [], ranges := [], index := 0 } (0, 0) with
+      | error e => rw [h1] at h; cases h
+      | ok p =>
+        obtain ⟨st, dbs⟩ := p
+        rw [h1] at h
+        simp only at h
+        injection h with h
+        subst h
+        obtain ⟨hg, new, T, hr, hs, hf⟩ := encodeSlices_spec c offsets 0 _ (0, 0) st dbs (good_init c) h1
+        have hd := encodeSlices_dbs c offsets 0 _ (0, 0) st dbs (good_init c) (by simp) (by simp [dmaSum, getDbs]) h1
+        simp only [List.nil_append] at hr hs
+        refine { good := ?_, made := by rw [hr]; exact hf, dbs := hd, dict := rfl, ncores := hn, nOff := by omega }
+        exact { aligned := hg.aligned, rng := hg.rng, ordered := hg.ordered }
+
+/-! ### `OrderedDict` view -/
+
+def sameKey (x r : Range) : Prop := x.core = r.core ∧ x.depth = r.depth
+
+theorem upsert_fresh (l : List Range) (r : Range) (h : ∀ x ∈ l, ¬ sameKey x r) : upsert l r = l ++ [r] := by
+  induction l with
+  | nil => rfl
+  | cons x xs ih =>
+    have hx : ¬ (x.core = r.core ∧ x.depth = r.depth) := h x (by simp)
+    simp only [upsert, hx, if_false, List.cons_append]
+    rw [ih (fun y hy => h y (by simp [hy]))]
+
+theorem foldl_upsert_fresh (rs acc : List Range) (h : (acc ++ rs).Pairwise (fun x y => ¬ sameKey x y)) :
+    rs.foldl upsert acc = acc ++ rs := by
+  induction rs generalizing acc with
+  | nil => simp
+  | cons r rs ih =>
+    simp only [List.foldl_cons]
+    have h' : (acc ++ [r] ++ rs).Pairwise (fun x y => ¬ sameKey x y) := by simpa using h
+    rw [upsert_fresh acc r ?_, ih _ h']
+    · simp
+    · intro x hx
+      rw [List.pairwise_append] at h
+      exact h.2.2 x hx r (by simp)
+
+theorem orderedDict_of_distinct (rs : List Range) (h : rs.Pairwise (fun x y => ¬ sameKey x y)) :
+    orderedDict rs = rs := by
+  unfold orderedDict
+  simpa using foldl_upsert_fresh rs [] (by simpa using h)
+
+
+/-! ### model loop order = Spec's expected (core, slice) list -/
+
+def reqOf (c : Cfg) (offsets : List Nat) : SReq := ⟨c.ncores, c.fullDepth, c.blockDepth, offsets⟩
+
+def toExpect (e : Nat × Nat × Nat × Nat) : Expect := ⟨e.1, e.2.2.2, e.2.1, e.2.2.1⟩
+
+theorem cbdOf_pos (c : Cfg) (k : Nat) (hk : k < c.ncores) (hb : c.ncores ≤ c.blockDepth) : cbdOf c k ≠ 0 := by
+  unfold cbdOf
+  have : 0 < (c.blockDepth + c.ncores - 1 - k) / c.ncores := Nat.div_pos (by omega) (by omega)
+  omega
+
+theorem activeCoresM_all (c : Cfg) (hb : c.ncores ≤ c.blockDepth) :
+    activeCoresM c (List.range (min c.ncores c.fullDepth)) = List.range (min c.ncores c.fullDepth) := by
+  unfold activeCoresM
+  rw [List.filter_eq_self]
+  intro k hk
+  simp only [List.mem_range] at hk
+  simp [cbdOf_pos c k (by omega) hb]
+
+theorem expectedM_eq (c : Cfg) (hb : c.ncores ≤ c.blockDepth) : ∀ (offs : List Nat) (idx : Nat),
+    (expectedM c idx offs).map toExpect =
+      (slicesFrom idx offs).flatMap fun s => (List.range (min c.ncores c.fullDepth)).map fun k => ⟨s.1, k, s.2.1, s.2.2⟩ := by
+  intro offs
+  induction offs with
+  | nil => intro idx; simp [expectedM, slicesFrom]
+  | cons a tl ih =>
+    intro idx
+    cases tl with
+    | nil => simp [expectedM, slicesFrom]
+    | cons b rest =>
+      simp only [expectedM, slicesFrom, List.map_append, List.flatMap_cons, ih (idx + 1), activeCoresM_all c hb,
+        List.map_map]
+      rfl
+
+theorem expectedM_expected (c : Cfg) (offsets : List Nat) (hb : c.ncores ≤ c.blockDepth) :
+    (expectedM c 0 offsets).map toExpect = expected (reqOf c offsets) := by
+  rw [expectedM_eq c hb]; rfl
+
+
+/-! ### consecutive slices of a strictly increasing offset list -/
+
+def lastOf : Nat → List Nat → Nat
+  | a, [] => a
+  | _, b :: rest => lastOf b rest
+
+theorem getLast?_cons_lastOf (a : Nat) (tl : List Nat) : (a :: tl).getLast? = some (lastOf a tl) := by
+  induction tl generalizing a with
+  | nil => rfl
+  | cons b rest ih => rw [List.getLast?_cons_cons, ih b]; rfl
+
+/-- a slice `(idx, off, len)` contains channel `ch` -/
+def inSlice (s : Nat × Nat × Nat) (ch : Nat) : Prop := s.2.1 ≤ ch ∧ ch < s.2.1 + s.2.2
+
+theorem slicesFrom_props (a : Nat) (tl : List Nat) : ∀ (idx : Nat), (a :: tl).Pairwise (· < ·) →
+    (∀ s ∈ slicesFrom idx (a :: tl), idx ≤ s.1 ∧ a ≤ s.2.1 ∧ 0 < s.2.2 ∧ s.2.1 + s.2.2 ≤ lastOf a tl) ∧
+    (slicesFrom idx (a :: tl)).Pairwise (fun s t => s.2.1 + s.2.2 ≤ t.2.1 ∧ s.1 < t.1) ∧
+    (∀ ch, a ≤ ch → ch < lastOf a tl → ∃ s ∈ slicesFrom idx (a :: tl), inSlice s ch) := by
+  induction tl generalizing a with
+  | nil => intro idx _; simp [slicesFrom, lastOf]
+  | cons b rest ih =>
+    intro idx hp
+    rw [List.pairwise_cons] at hp
+    obtain ⟨hab, hp'⟩ := hp
+    have hlt : a < b := hab b (by simp)
+    obtain ⟨h1, h2, h3⟩ := ih b (idx + 1) hp'
+    have hbl : b ≤ lastOf b rest := by
+      cases rest with
+      | nil => simp [lastOf]
+      | cons d r =>
+        -- the first slice of the tail ends below the last offset
+        have := (h1 (idx + 1, b, d - b) (by simp [slicesFrom])).2.2.2
+        simp at this; omega
+    simp only [slicesFrom, lastOf]
+    refine ⟨?_, ?_, ?_⟩
+    · intro s hs
+      simp only [List.mem_cons] at hs
+      rcases hs with rfl | hs
+      · simp; omega
+      · obtain ⟨i1, i2, i3, i4⟩ := h1 s hs
+        exact ⟨by omega, by omega, i3, i4⟩
+    · rw [List.pairwise_cons]
+      refine ⟨?_, h2⟩
+      intro t ht
+      obtain ⟨i1, i2, _, _⟩ := h1 t ht
+      simp; omega
+    · intro ch hch hlast
+      by_cases hc : ch < b
+      · exact ⟨(idx, a, b - a), by simp, by simp [inSlice]; omega⟩
+      · obtain ⟨s, hs, hin⟩ := h3 ch (by omega) hlast
+        exact ⟨s, by simp [hs], hin⟩
+
+theorem pairwise_mem_cases {α : Type} {R : α → α → Prop} {l : List α} (h : l.Pairwise R) (x y : α)
+    (hx : x ∈ l) (hy : y ∈ l) : x = y ∨ R x y ∨ R y x := by
+  induction l with
+  | nil => simp at hx
+  | cons a t ih =>
+    rw [List.pairwise_cons] at h
+    simp only [List.mem_cons] at hx hy
+    rcases hx with rfl | hx <;> rcases hy with rfl | hy
+    · exact Or.inl rfl
+    · exact Or.inr (Or.inl (h.1 y hy))
+    · exact Or.inr (Or.inr (h.1 x hx))
+    · exact ih h.2 hx hy
+
+/-! ### Python slice = channels of the (core, slice) -/
+
+theorem lt_ceilDiv_iff (i x n : Nat) (hn : 0 < n) : i < (x + n - 1) / n ↔ i * n < x := by
+  rw [show i < (x + n - 1) / n ↔ i + 1 ≤ (x + n - 1) / n from Iff.rfl, Nat.le_div_iff_mul_le hn, Nat.add_mul]
+  omega
+
+theorem mem_pySliceIdx (L a b n x : Nat) (hn : 0 < n) :
+    x ∈ pySliceIdx L a b n ↔ ∃ i, i * n < min b L - a ∧ x = a + i * n := by
+  unfold pySliceIdx
+  simp only [List.mem_map, List.mem_range]
+  constructor
+  · rintro ⟨i, hi, rfl⟩
+    refine ⟨i, ?_, rfl⟩
+    have := (lt_ceilDiv_iff i (min b L - a) n hn).1 (by rw [show min b L - a + n - 1 = min b L - a + n - 1 from rfl]; exact hi)
+    exact this
+  · rintro ⟨i, hi, rfl⟩
+    exact ⟨i, (lt_ceilDiv_iff i (min b L - a) n hn).2 hi, rfl⟩
+
+theorem mem_chanOf (n core off len x : Nat) :
+    x ∈ chanOf n core off len ↔ ∃ j, j < len ∧ j % n = core ∧ x = off + j := by
+  unfold chanOf
+  simp only [List.mem_map, List.mem_filter, List.mem_range, decide_eq_true_eq]
+  constructor
+  · rintro ⟨j, ⟨h1, h2⟩, rfl⟩; exact ⟨j, h1, h2, rfl⟩
+  · rintro ⟨j, h1, h2, rfl⟩; exact ⟨j, ⟨h1, h2⟩, rfl⟩
+
+theorem pySliceIdx_sorted (L a b n : Nat) (hn : 0 < n) : (pySliceIdx L a b n).Pairwise (· < ·) := by
+  unfold pySliceIdx
+  rw [List.pairwise_map]
+  refine List.Pairwise.imp ?_ List.pairwise_lt_range
+  intro i j hij
+  have := Nat.mul_lt_mul_of_lt_of_le hij (Nat.le_refl n) hn
+  omega
+
+theorem chanOf_sorted (n core off len : Nat) : (chanOf n core off len).Pairwise (· < ·) := by
+  unfold chanOf
+  rw [List.pairwise_map]
+  refine List.Pairwise.imp ?_ (List.Pairwise.filter _ List.pairwise_lt_range)
+  intro i j hij; omega
+
+theorem sorted_ext : ∀ (l1 l2 : List Nat), l1.Pairwise (· < ·) → l2.Pairwise (· < ·) →
+    (∀ x, x ∈ l1 ↔ x ∈ l2) → l1 = l2 := by
+  intro l1
+  induction l1 with
+  | nil =>
+    intro l2 _ _ h
+    cases l2 with
+    | nil => rfl
+    | cons b t => exact absurd ((h b).2 (by simp)) (by simp)
+  | cons a t1 ih =>
+    intro l2 h1 h2 h
+    cases l2 with
+    | nil => exact absurd ((h a).1 (by simp)) (by simp)
+    | cons b t2 =>
+      rw [List.pairwise_cons] at h1 h2
+      have hab : a = b := by
+        have ha := (h a).1 (by simp)
+        have hb := (h b).2 (by simp)
+        simp only [List.mem_cons] at ha hb
+        rcases ha with ha | ha
+        · exact ha
+        · rcases hb with hb | hb
+          · exact hb.symm
+          · have := h2.1 a ha; have := h1.1 b hb; omega
+      subst hab
+      congr 1
+      apply ih t2 h1.2 h2.2
+      intro x
+      constructor
+      · intro hx
+        have := (h x).1 (by simp [hx])
+        simp only [List.mem_cons] at this
+        rcases this with rfl | this
+        · have := h1.1 x hx; omega
+        · exact this
+      · intro hx
+        have := (h x).2 (by simp [hx])
+        simp only [List.mem_cons] at this
+        rcases this with rfl | this
+        · have := h2.1 x hx; omega
+        · exact this
+
+/-- multiples of `n`: `i·n < q·n` leaves room for a whole further step -/
+theorem mul_step_le (i n len : Nat) (hdiv : len % n = 0) (h : i * n < len) (_hn : 0 < n) : i * n + n ≤ len := by
+  have hq : len = n * (len / n) := by have := Nat.mod_add_div len n; omega
+  have hi : i < len / n := by
+    rw [hq, Nat.mul_comm n] at h
+    exact Nat.lt_of_mul_lt_mul_right h
+  have : (i + 1) * n ≤ (len / n) * n := Nat.mul_le_mul_right n hi
+  rw [Nat.add_mul, Nat.one_mul] at this
+  rw [Nat.mul_comm] at hq
+  omega
+
+/-- the weights of a (core, slice): `core_deinterleave(weights[..., off:off+len], core, n)` selects
+    exactly the channels whose in-slice index is `≡ core (mod n)` -/
+theorem weight_slice_eq (D n core off len : Nat) (hn : 0 < n) (hc : core < n) (hD : off + len ≤ D) :
+    pySliceIdx D (off + core) (off + len) n = chanOf n core off len := by
+  apply sorted_ext _ _ (pySliceIdx_sorted _ _ _ _ hn) (chanOf_sorted _ _ _ _)
+  intro x
+  rw [mem_pySliceIdx _ _ _ _ _ hn, mem_chanOf]
+  constructor
+  · rintro ⟨i, hi, rfl⟩
+    refine ⟨core + i * n, ?_, ?_, by omega⟩
+    · have : min (off + len) D = off + len := by omega
+      rw [this] at hi; omega
+    · rw [Nat.add_mul_mod_self_right, Nat.mod_eq_of_lt hc]
+  · rintro ⟨j, hj, hm, rfl⟩
+    refine ⟨j / n, ?_, ?_⟩
+    · have := Nat.mod_add_div j n
+      have : min (off + len) D = off + len := by omega
+      rw [this, Nat.mul_comm]; omega
+    · have := Nat.mod_add_div j n
+      rw [Nat.mul_comm (j / n)]; omega
+
+/-- the scale records of a (core, slice): `biases[off+core : off+core+len : n]` is the same set only when
+    the slice length is a multiple of `n` or the slice is the last one (the list end clips it) -/
+theorem scale_slice_eq (L n core off len : Nat) (hn : 0 < n) (hc : core < n) (hL : off + len ≤ L)
+    (hreg : len % n = 0 ∨ off + len = L) :
+    pySliceIdx L (off + core) (off + core + len) n = chanOf n core off len := by
+  apply sorted_ext _ _ (pySliceIdx_sorted _ _ _ _ hn) (chanOf_sorted _ _ _ _)
+  intro x
+  rw [mem_pySliceIdx _ _ _ _ _ hn, mem_chanOf]
+  constructor
+  · rintro ⟨i, hi, rfl⟩
+    refine ⟨core + i * n, ?_, ?_, by omega⟩
+    · rcases hreg with hdiv | hlast
+      · have h1 : i * n < len := by omega
+        have := mul_step_le i n len hdiv h1 hn
+        omega
+      · have : min (off + core + len) L = off + len := by omega
+        rw [this] at hi; omega
+    · rw [Nat.add_mul_mod_self_right, Nat.mod_eq_of_lt hc]
+  · rintro ⟨j, hj, hm, rfl⟩
+    refine ⟨j / n, ?_, ?_⟩
+    · have := Nat.mod_add_div j n
+      rw [Nat.mul_comm]; omega
+    · have := Nat.mod_add_div j n
+      rw [Nat.mul_comm (j / n)]; omega
+
+
+/-! ### the record bytes decode to the channels' records -/
+
+/-- per-channel expected record: `(bias, multiplier, shift)` -/
+def expOf (c : Cfg) : List Rec := List.zipWith (fun b q => Rec.mk b q.1.toNat q.2.toNat) c.biases c.scales
+
+theorem expOf_get (c : Cfg) (ch : Nat) (b : Int) (q : Int × Int) (hb : c.biases[ch]? = some b)
+    (hq : c.scales[ch]? = some q) : (expOf c)[ch]? = some ⟨b, q.1.toNat, q.2.toNat⟩ := by
+  unfold expOf
+  rw [List.getElem?_zipWith]
+  simp [hb, hq]
+
+theorem scaleRecords_diag (c : Cfg) : ∀ (chs : List Nat) (data : List Nat), scaleRecords c chs chs = .ok data →
+    data.length = 10 * chs.length ∧
+    (decodeRecords data).map (fun l => l.map some) = some (chs.map ((expOf c)[·]?)) := by
+  intro chs
+  induction chs with
+  | nil =>
+    intro data h
+    simp only [scaleRecords] at h
+    injection h with h; subst h
+    simp [decodeRecords]
+  | cons ch rest ih =>
+    intro data h
+    simp only [scaleRecords] at h
+    cases hb : c.biases[ch]? with
+    | none => rw [hb] at h; simp at h
+    | some b =>
+      cases hq : c.scales[ch]? with
+      | none => rw [hb, hq] at h; simp at h
+      | some q =>
+        rw [hb, hq] at h
+        simp only at h
+        cases he : encodeBias b q.1 q.2 with
+        | error e => rw [he] at h; simp at h
+        | ok bytes =>
+          rw [he] at h
+          simp only at h
+          cases hr : scaleRecords c rest rest with
+          | error e => rw [hr] at h; simp at h
+          | ok more =>
+            rw [hr] at h
+            simp only at h
+            injection h with h; subst h
+            obtain ⟨hin, rfl⟩ := (encodeBias_ok_iff _ _ _ _).1 he
+            obtain ⟨hl, hd⟩ := ih more hr
+            refine ⟨by simp [recordBytes_length, hl]; omega, ?_⟩
+            cases hdm : decodeRecords more with
+            | none => rw [hdm] at hd; simp at hd
+            | some rs =>
+              rw [hdm] at hd
+              simp only [Option.map_some, Option.some.injEq] at hd
+              rw [decodeRecords_cons b q.1 q.2 more _ rs (decode_recordBytes _ _ _ hin) hdm]
+              simp only [Option.map_some, List.map_cons, Option.some.injEq, hd]
+              rw [expOf_get c ch b q hb hq]
+
+
+/-! ### keys are distinct when the offsets increase -/
+
+theorem All₂.exists_left {α β : Type} {R : α → β → Prop} {a : List α} {b : List β} (h : All₂ R a b) :
+    ∀ y ∈ b, ∃ x ∈ a, R x y := by
+  induction h with
+  | nil => simp
+  | cons hx _ ih =>
+    intro y hy
+    simp only [List.mem_cons] at hy
+    rcases hy with rfl | hy
+    · exact ⟨_, by simp, hx⟩
+    · obtain ⟨x, hx', hr⟩ := ih y hy
+      exact ⟨x, by simp [hx'], hr⟩
+
+theorem All₂.pairwise {α β : Type} {R : α → β → Prop} {P : α → α → Prop} {Q : β → β → Prop}
+    {a : List α} {b : List β} (h : All₂ R a b) (hp : a.Pairwise P)
+    (hq : ∀ x x' y y', R x y → R x' y' → P x x' → Q y y') : b.Pairwise Q := by
+  induction h with
+  | nil => exact List.Pairwise.nil
+  | cons hx hrest ih =>
+    rw [List.pairwise_cons] at hp ⊢
+    refine ⟨?_, ih hp.2⟩
+    intro y' hy'
+    obtain ⟨x', hx', hr⟩ := hrest.exists_left y' hy'
+    exact hq _ _ _ _ hx hr (hp.1 x' hx')
+
+theorem expectedM_keys (c : Cfg) (a : Nat) (tl : List Nat) : ∀ (idx : Nat), (a :: tl).Pairwise (· < ·) →
+    (expectedM c idx (a :: tl)).Pairwise (fun e f => ¬ (e.2.2.2 = f.2.2.2 ∧ e.2.1 = f.2.1)) ∧
+    ∀ e ∈ expectedM c idx (a :: tl), a ≤ e.2.1 := by
+  induction tl generalizing a with
+  | nil => intro idx _; simp [expectedM]
+  | cons b rest ih =>
+    intro idx hp
+    rw [List.pairwise_cons] at hp
+    have hlt : a < b := hp.1 b (by simp)
+    obtain ⟨h1, h2⟩ := ih b (idx + 1) hp.2
+    simp only [expectedM]
+    refine ⟨?_, ?_⟩
+    · rw [List.pairwise_append]
+      refine ⟨?_, h1, ?_⟩
+      · rw [List.pairwise_map]
+        refine List.Pairwise.imp ?_ (List.Pairwise.filter _ List.pairwise_lt_range)
+        intro i j hij; simp; omega
+      · intro e he f hf
+        simp only [List.mem_map] at he
+        obtain ⟨k, _, rfl⟩ := he
+        have := h2 f hf
+        simp; omega
+    · intro e he
+      simp only [List.mem_append, List.mem_map] at he
+      rcases he with ⟨k, _, rfl⟩ | he
+      · simp
+      · have := h2 e he; omega
+
+theorem rawRanges_distinct (c : Cfg) (offsets : List Nat) (out : Out) (hs : offsets.Pairwise (· < ·))
+    (hf : TensorFacts c offsets out) : out.rawRanges.Pairwise (fun x y => ¬ sameKey x y) := by
+  cases offsets with
+  | nil => have := hf.nOff; simp at this
+  | cons a tl =>
+    refine hf.made.pairwise (expectedM_keys c a tl 0 hs).1 ?_
+    intro e e' r r' hm hm' hne
+    unfold MadeE at hm hm'
+    unfold sameKey
+    rw [hm.hcore, hm.hdepth, hm'.hcore, hm'.hdepth]
+    exact hne
+
+theorem ranges_eq_raw (c : Cfg) (offsets : List Nat) (out : Out) (hs : offsets.Pairwise (· < ·))
+    (hf : TensorFacts c offsets out) : out.ranges = out.rawRanges := by
+  rw [hf.dict]; exact orderedDict_of_distinct _ (rawRanges_distinct c offsets out hs hf)
 
 end VelaVerif.WeightLayout
